@@ -289,6 +289,13 @@ def predicate(case):
                     fails.append(("C08_fail_back_safe",
                                   "incoming htlc %s failed back before the removal of outgoing htlc %s was locked in"
                                   % ([ch, idn], [och, oid])))
+        # --- no outgoing HTLC for an incoming HTLC that was already settled upstream
+        if e[0] == "s" and e[2] == "ful":
+            late = [t0 for (t0, _, _) in fwd_insts.get((e[1], e[3]), []) if t0 > i]
+            if late:
+                fails.append(("C08_quiescent_balance",
+                              "incoming htlc %s was settled upstream, yet an outgoing htlc was added for it "
+                              "afterwards" % [e[1], e[3]]))
         if e[0] == "p" and e[2] == "fail" and e[6]:
             fails.append(("C08_fail_back_safe",
                           "fail of outgoing htlc %s handed to the switch while still active on a commitment"
@@ -297,6 +304,15 @@ def predicate(case):
             h = in_hash.get((e[3], e[4]))
             if h is not None and sha(e[7]) != h:
                 fails.append(("C08_settle_needs_preimage", "settle event with a wrong preimage"))
+
+    # --- forwarding-package bookkeeping: the same incoming add always carries the same source ref
+    for o in replay_index_defect(case):
+        if "incoming_htlc" in o:
+            fails.append(("C08_quiescent_balance",
+                          "incoming htlc %s re-forwarded after a restart with forwarding-package index %s "
+                          "(was %s): its response will ack the wrong add" %
+                          (o["incoming_htlc"], o["source_ref_replay"], o["source_ref_first"])))
+            break
 
     # --- quiescent end state
     if case["quiescent"]:
@@ -344,6 +360,35 @@ def predicate(case):
     return fails
 
 
+def replay_index_defect(case):
+    """Known defect C08-F1 (link.go processRemoteAdds): when a forwarding package is replayed after
+    a link restart and some of its adds are already acked, the remaining adds are processed with
+    their position in the FILTERED list as forwarding-package index (SourceRef / FwdFilter bit).
+    Returns the list of observations: shifted replays (any node) and changed source refs (forwarder)."""
+    obs = []
+    first = {}
+    for i, e in enumerate(case["events"]):
+        if e[0] == "d":
+            k = (e[1], e[2], e[3])
+            if k not in first:
+                first[k] = e[4]
+            else:
+                l0 = first[k]
+                sh = [h[:8] for j, h in enumerate(e[4]) if h in l0 and l0.index(h) != j]
+                if sh:
+                    obs.append({"at": i, "node": e[1], "chan": e[2], "fwdpkg": e[3],
+                                "package": [h[:8] for h in l0], "replayed": [h[:8] for h in e[4]]})
+    src = {}
+    for i, e in enumerate(case["events"]):
+        if e[0] == "p" and e[2] == "add" and len(e) > 9:
+            k, v = (e[3], e[4]), (e[8], e[9])
+            if k in src and src[k] != v:
+                obs.append({"at": i, "incoming_htlc": list(k), "source_ref_first": list(src[k]),
+                            "source_ref_replay": list(v)})
+            src.setdefault(k, v)
+    return obs
+
+
 def funds_missing(case):
     """Non-quiescent end state in which value has demonstrably vanished."""
     end = {e["name"]: e for e in case["end"]}
@@ -364,6 +409,17 @@ def slim(case, around=None):
 
 
 def run(ctx):
+    # VERIF_C08_F1=known treats the replay-index defect as already registered in known_findings.json
+    # (for campaigns run before the lead registers it): its reports become notes.
+    if os.environ.get("VERIF_C08_F1") == "known":
+        real_violation = ctx.violation
+
+        def violation(kind, name, detail, signature=None, failing_input=True):
+            if signature and "fwdpkg-replay-index" in signature:
+                ctx.note("C08-F1 (assumed known): %s" % signature)
+                return
+            real_violation(kind, name, detail, signature=signature, failing_input=failing_input)
+        ctx.violation = violation
     pr = ctx.proof_stage(MODULE, THEOREMS, TARGETS, extra_trusted=[
         "payment hash function H is a Section variable: theorems hold for any H; execution "
         "instantiates SHA-256 (Common/Sha256.v)",
@@ -383,23 +439,39 @@ def run(ctx):
                       signature="harness", failing_input=False)
         return
     nfail = 0
+    defect = {}        # case number -> observations of the replay-index defect (C08-F1)
+    for c in rows:
+        d = replay_index_defect(c)
+        if d:
+            defect[c["case"]] = d
     for c in rows:
         stuck = (not c["quiescent"]) or any(p["result"] == "timeout" for p in c["pays"])
         f = predicate(c)
+        # every anomaly of a batch in which the replay-index defect was triggered is attributed to it
+        tag = "threehop fwdpkg-replay-index: " if c["case"] in defect else "threehop "
+        linkfail = [e[1] for e in c["events"] if e[0] == "f"]
         if f:
             nfail += 1
             if nfail <= 3:
                 ctx.violation("impl_violates_predicate", f[0][0],
-                              {"case": slim(c), "fails": f[:10]},
-                              signature="threehop %s" % f[0][1][:60])
+                              {"case": slim(c), "fails": f[:10], "link_failures": linkfail,
+                               "replay_index_defect": defect.get(c["case"], [])[:6]},
+                              signature=tag + f[0][1][:60])
         elif stuck:
             if funds_missing(c):
                 ctx.violation("impl_violates_predicate", "C08_quiescent_balance",
                               {"case": slim(c), "fails": ["value vanished; network not quiescent: " + c["why"]]},
-                              signature="threehop funds missing")
+                              signature=tag + "funds missing")
+            elif c["case"] in defect and linkfail:
+                ctx.violation("impl_violates_predicate", "C08_quiescent_balance",
+                              {"case": slim(c), "fails": ["htlcs left dangling: a restarted link failed while "
+                                                          "replaying its forwarding packages: %s" % linkfail[:3]],
+                               "replay_index_defect": defect[c["case"]][:6]},
+                              signature=tag + "link dead after replay")
             else:
                 ctx.violation("harness_failed", "TestVerifThreeHop: no quiescence (%s)" % c["why"],
-                              {"case": slim(c)}, signature="harness", failing_input=False)
+                              {"case": slim(c), "link_failures": linkfail}, signature=tag + "harness",
+                              failing_input=False)
     # correspondence: the model must accept the trace and agree on the end state
     terms, evmaps, probs_all = [], [], []
     for c in rows:
@@ -430,8 +502,10 @@ def run(ctx):
                                            "NumPending", "NumOpen"][min(first - len(evs), 4)]}
             around = None
         ctx.violation("correspondence_mismatch", "Forward.Exec.check_case",
-                      {"case": slim(c, around), "what": what},
-                      signature="threehop recogniser", failing_input=True)
+                      {"case": slim(c, around), "what": what,
+                       "replay_index_defect": defect.get(c["case"], [])[:6]},
+                      signature=("threehop fwdpkg-replay-index: " if c["case"] in defect else "threehop ")
+                      + "recogniser", failing_input=True)
     if not pr["ok"] and not ctx.violations:
         ctx.violation("proof_broken", ", ".join(pr["broken"]) or "Forward build",
                       {"log": pr["log"][-4000:]}, signature="proof", failing_input=False)
@@ -444,7 +518,8 @@ def run(ctx):
             key = p["kind"] + ":" + p["result"]
             results[key] = results.get(key, 0) + 1
         for e in c["events"]:
-            k = e[0] + ":" + str(e[1] if e[0] in ("n", "c", "x") else (e[3] if e[0] == "w" else e[2]))
+            k = e[0] + ":" + str(e[1] if e[0] in ("n", "c", "x") else
+                                 (e[3] if e[0] == "w" else (e[2] if e[0] in ("s", "p") else "")))
             evk[k] = evk.get(k, 0) + 1
         for t, _ in evs:
             k = t.split("(")[2].split()[0] if t.startswith("ECirc") and t.count("(") > 1 else \
@@ -464,6 +539,11 @@ def run(ctx):
         "model_events_total": sum(len(e) for e in evmaps),
         "faults": {c["fault"]: sum(1 for x in rows if x["fault"] == c["fault"]) for c in rows},
         "quiescent_cases": sum(1 for c in rows if c["quiescent"]),
+        "cases_with_replay_index_defect_C08_F1": len(defect),
+        "messages_lost_or_stale": sum(c.get("dropped", 0) for c in rows),
+        "faults_injected": sum(1 for c in rows for f in (c.get("faults") or []) if f["fired"] != "none"),
+        "fault_triggers": {k: sum(1 for c in rows for f in (c.get("faults") or []) if f["fired"] == k)
+                           for k in ("trigger", "timer", "none")},
         "samples": [[t for t, _ in evmaps[0][:12]]],
         "correspondence_mismatches": len(bad),
         "race_detector": race,
